@@ -254,10 +254,12 @@ def gen_input(
         # raw 'probs' tensors (Dirichlet-initialised, no activation) are only valid while they
         # stay normalised, which no unconstrained update preserves: integrate() documents
         # log Z = 0 for them.  They are therefore not generated for worlds with updates.
-        # (a 'logits' parameterisation is normalised as well: the layer applies log-softmax)
-        params = ["default", "softmax", "logits"]
+        # a Categorical layer given 'logits' is *unnormalised* (its integral is the log-sum-exp of
+        # the logits), so it is not one of the normalised settings
+        params = ["default", "softmax"] if normalized else ["default", "softmax", "logits"]
         return {"type": t, "k": rng.randint(2, 4), "param": rng.choice(params)}
     if t == "binomial":
+        # (a Binomial given 'logits' is still a normalised distribution)
         params = ["default", "sigmoid", "logits"]
         return {"type": t, "k": rng.randint(1, 3), "param": rng.choice(params)}
     if t == "gaussian":
